@@ -2,7 +2,9 @@
 """rewrites the seed/check table of DESIGN.md (between the SEED-TABLE markers) from seeded/*/meta.json"""
 import json, glob
 rows = []
-for d in sorted(glob.glob('/verif/seeded/*/')):
+for d in sorted(glob.glob("/verif/seeded/*/")):
+    if not __import__("os").path.exists(d + "meta.json"):
+        continue
     m = json.load(open(d + 'meta.json'))
     ch = []
     for c, v in m['checks'].items():
